@@ -230,6 +230,12 @@ class Case:
                 self.prod[p] = None
                 self.ev.append({"e": "unreg", "p": p})
                 self.guard("unreg", self.apps[p].transport.unregisterProducer)
+        elif k == "unreg":            # the application unregisters its producer now (paused or not)
+            p = o[1]
+            if self.prod[p] is not None:
+                self.prod[p] = None
+                self.ev.append({"e": "unreg", "p": p})
+                self.guard("unreg", self.apps[p].transport.unregisterProducer)
         elif k == "tpause" or k == "tresume":     # back-pressure from the underlying transport
             p = o[1]
             pr = self.tr[p].producer
